@@ -107,7 +107,18 @@ func ConcatItems[T any](items []T) (T, error) {
 		return t, err
 	}
 
-	return cv.Interface().(T), nil
+	// (several nil chunks of an interface type concatenate to the nil interface value, i.e. T's zero value)
+	res, ok := cv.Interface().(T)
+	if !ok && cv.Kind() == reflect.Interface && cv.IsNil() {
+		var t T
+		return t, nil
+	}
+	if !ok {
+		var t T
+		return t, fmt.Errorf("concat result of type %v is not %v", cv.Type(), typ)
+	}
+
+	return res, nil
 }
 
 func concatMaps(ms reflect.Value) (reflect.Value, error) {
